@@ -174,7 +174,8 @@ Proof. exact retransmission_identical. Qed.
 (* ---- the statements of send_scp_burst / send_scp / seqs in the current /repo (re-extracted from the ast on
         every run, fail closed) are the ones the model was written from *)
 Example C06_source_shape :
-  shape_send_scp_burst = mirrored_send_scp_burst /\ shape_send_scp = mirrored_send_scp /\ shape_seqs = mirrored_seqs.
+  shape_send_scp_burst = mirrored_send_scp_burst /\ shape_send_scp = mirrored_send_scp /\ shape_init = mirrored_init
+  /\ shape_seqs = mirrored_seqs.
 Proof. exact source_shape. Qed.
 
 (* ---- the constants the model takes from the source (regenerated on every run) *)
